@@ -720,6 +720,15 @@ func normalizeValue(
 	ctx context,
 	v reflect.Value,
 ) (value, Error) {
+	// Everything that walks a configuration is recursive: a value nested
+	// deeper than any stack holds (decoders without a limit of their own
+	// deliver such values for a few hundred kB of '[') is refused here.
+	opts.normalizeDepth++
+	defer func() { opts.normalizeDepth-- }()
+	if opts.normalizeDepth > maxNestingDepth {
+		return nil, raiseNestingTooDeep(opts.meta)
+	}
+
 	v = chaseValue(v)
 
 	switch v.Type() {
@@ -767,6 +776,16 @@ func normalizeValue(
 		}
 		return nil, raiseUnsupportedInputType(ctx, opts.meta, v)
 	}
+}
+
+// maxNestingDepth is the deepest nesting of objects and lists Merge accepts
+// (the limit of encoding/json and yaml.v2).
+const maxNestingDepth = 10000
+
+func raiseNestingTooDeep(meta *Meta) Error {
+	reason := ErrTypeMismatch
+	message := fmt.Sprintf("value nested deeper than %d levels", maxNestingDepth)
+	return raiseCritical(reason, messagePath(reason, meta, message, ""))
 }
 
 func normalizeString(ctx context, opts *options, str string) (value, Error) {
